@@ -76,6 +76,17 @@ def eval_values(case, rec):
             raise Violation('value-collision', {'level': lab, 'v': v, 'v2': v2, 'text': x,
                                                 'frozen_scheme_collides_too': frozen_collides(v, v2),
                                                 'quote_in_strings': has_quote(v) or has_quote(v2)})
+    # default elision: a value that is not equal (Python ==, as documented) to the default must be persisted
+    from taskchain.parameter import Parameter
+    for dflt, val in ((v, v2), (v2, v)):
+        p = Parameter('x', default=dflt, dont_persist_default_value=True)
+        p._value = val
+        try:
+            equal = bool(val == dflt)
+        except Exception:
+            equal = False
+        if not equal and p.repr is None:
+            raise Violation('non-default-value-elided', {'default': dflt, 'value': val})
     d = max(_depth(v), _depth(v2))
     rec.case(case, nontrivial=d >= 1, classes=['value-level', 'alphabet:' + case['alphabet'], f'depth>={min(d, 3)}'],
              key=hyp.digest([canon(v), canon(v2)]))
